@@ -72,6 +72,8 @@ CONSTANTS
   MaxWire = 2
   ReqKinds = {%(kinds)s}
   MaxTicks = %(ticks)d
+  LeaveAfter = %(leave)d
+  StoresPerTick = %(spt)d
 %(inv)s
 CHECK_DEADLOCK FALSE
 '''
@@ -161,7 +163,7 @@ def model_check(tier, pool):
     for dev, inv, faults in (('spin_on_closed', 'NoBadFrame', ['query']), ('spin_on_closed', 'NoBadFrame', ['version']),
                              ('err_frame', 'NoBadFrame', ['scan']), ('row_err_unnoticed', 'DueDelivered', ['row'])):
         jobs.append(pool.submit(mc_run, 'cex_%s_%s' % (dev, faults[0]), 'MC_TailSched.tla', CFG_SCHED % {
-            'lines': ints(2), 'maxt': 4, 'dev': q([dev]), 'faults': q(faults), 'kinds': q(['ok']), 'ticks': 3,
+            'lines': ints(2), 'maxt': 4, 'dev': q([dev]), 'faults': q(faults), 'kinds': q(['ok']), 'ticks': 3, 'leave': 99, 'spt': 2,
             'inv': 'INVARIANTS ' + inv}, inv, 600, 2))
     jobs.append(pool.submit(mc_run, 'cex_spin_liveness', 'MC_Tail.tla', CFG_MC % {
         'lines': ints(1), 'maxt': 2, 'dev': q(['spin_on_closed']), 'wire': 1, 'kinds': q(['ok']),
@@ -171,12 +173,12 @@ def model_check(tier, pool):
 
 # ---------------------------------------------------------------------------------------------------------------- schedules
 
-def simulate(kinds, n, depth, seed, ticks, lines=3, maxt=6):
+def simulate(kinds, n, depth, seed, ticks, leave, lines=4, maxt=6):
     sd = vlib.scratch('x01cfg')
     try:
         cfgp = os.path.join(sd, 'sim.cfg')
         open(cfgp, 'w').write(CFG_SCHED % {'lines': ints(lines), 'maxt': maxt, 'dev': q(ALLDEV), 'faults': q(FAULTS), 'kinds': q(kinds),
-                                           'ticks': ticks, 'inv': ''})
+                                           'ticks': ticks, 'leave': leave, 'spt': 1, 'inv': ''})
         res = vlib.tlc(SPECDIR, 'MC_TailSched.tla', 'sim.cfg', timeout=600, copy_extra=[cfgp], workers=4,
                        simulate={'num': n, 'file': True}, depth=depth, seed=seed)
         try:
@@ -279,22 +281,25 @@ def project(sched, sid, rnd, origin):
 
 
 def stratify(cands, n, rnd):
-    """Pick n scenarios, round-robin over feature classes."""
-    groups = {}
-    for c in cands:
-        m = c['meta']
-        key = (c['req'], c['fault'], m['leave'], min(m['queries'], 3), m['late_store'] > 0)
-        groups.setdefault(key, []).append(c)
-    keys = sorted(groups, key=str)
-    rnd.shuffle(keys)
-    # richer classes first
-    keys.sort(key=lambda k: -(k[3] + (2 if k[4] else 0) + (1 if k[1] != 'none' else 0)))
-    out = []
-    while len(out) < n and any(groups[k] for k in keys):
-        for k in keys:
-            if groups[k] and len(out) < n:
-                out.append(groups[k].pop(rnd.randrange(len(groups[k]))))
-    return out, len(keys)
+    """Pick n scenarios: 60 % without a database fault, the rest with one; round-robin over feature classes, richer classes first."""
+    def pick(cs, m):
+        groups = {}
+        for c in cs:
+            meta = c['meta']
+            key = (c['fault'], meta['leave'], min(meta['queries'], 4), min(meta['late_store'], 2))
+            groups.setdefault(key, []).append(c)
+        keys = sorted(groups, key=str)
+        rnd.shuffle(keys)
+        keys.sort(key=lambda k: -(k[2] + 2 * k[3]))
+        out = []
+        while len(out) < m and any(groups[k] for k in keys):
+            for k in keys:
+                if groups[k] and len(out) < m:
+                    out.append(groups[k].pop(rnd.randrange(len(groups[k]))))
+        return out, len(keys)
+    a, ka = pick([c for c in cands if c['fault'] == 'none'], n - n * 2 // 5)
+    b, kb = pick([c for c in cands if c['fault'] != 'none'], n * 2 // 5)
+    return a + b, ka + kb
 
 
 # ---------------------------------------------------------------------------------------------------------------- traces
@@ -396,9 +401,12 @@ def line_classes(events):
     for i, e in enumerate(events):
         if e['ev'] != 'Store':
             continue
-        qn = next((x for x in events[i + 1:] if x['ev'] == 'Query' and x.get('fault', 'none') == 'none'), None)
+        qn = next((x for x in events[i + 1:] if x['ev'] == 'Query'), None)
         if qn is None:
             res['never_queried'] += 1
+            continue
+        if qn.get('fault', 'none') != 'none':
+            res['faulted'] = res.get('faulted', 0) + 1
             continue
         c = 'old' if e['ts'] < qn['from'] else ('due' if e['ts'] < qn['to'] else 'future')
         res[c] += 1
@@ -424,9 +432,10 @@ def run(tier):
         cands = []
         sim_states = 0
         sid = 0
-        for kinds, n, ticks, depth in ((['ok'], 500 if tier == 'quick' else 4000, 4, 70), (['ok'], 200 if tier == 'quick' else 1500, 3, 45),
-                                       (['empty', 'noparse', 'noupgrade'], 40, 2, 12)):
-            scheds, gen = simulate(kinds, n, depth, seed * 31 + ticks + len(kinds), ticks)
+        for kinds, n, ticks, depth, leave in ((['ok'], 400 if tier == 'quick' else 3000, 4, 80, 3), (['ok'], 300 if tier == 'quick' else 2000, 4, 80, 2),
+                                              (['ok'], 200 if tier == 'quick' else 1500, 3, 50, 0),
+                                              (['empty', 'noparse', 'noupgrade'], 40, 2, 12, 0)):
+            scheds, gen = simulate(kinds, n, depth, seed * 31 + ticks + len(kinds) + 7 * leave, ticks, leave)
             sim_states += gen
             for s in scheds:
                 sid += 1
